@@ -23,7 +23,15 @@ def main():
     env = dict(os.environ, PYTHONPATH=str(d / "src"))
     env.pop("REDUINO_VERIF", None)
     report = {"dir": str(d), "id": sid}
-    rc, out = sh("git diff -- src > patch.diff; git diff --stat -- src | tail -1", cwd=d)
+    # the agent's patch.diff is authoritative (git stash is shared between worktrees and has raced before):
+    # reset the sources and re-apply it
+    if not (d / "patch.diff").exists():
+        sh("git diff -- src > patch.diff", cwd=d)
+    sh("git checkout -- src", cwd=d)
+    rc, out = sh("git apply patch.diff && git diff --stat -- src | tail -1", cwd=d)
+    if rc != 0:
+        print("patch.diff does not apply:", out)
+        return 2
     report["diffstat"] = out.strip()
     rc, out = sh("/venv/bin/python -m pytest -q -p no:cacheprovider 2>&1 | tail -1", cwd=d, env=env)
     rc_t, _ = sh("/venv/bin/python -m pytest -q -p no:cacheprovider -x", cwd=d, env=env)
@@ -31,14 +39,14 @@ def main():
     rc_demo, out = sh(f"/venv/bin/python {d}/demo.py", cwd=d, env=env)
     report["demo_with_change_rc"] = rc_demo
     report["demo_with_change_out"] = out.strip()[-300:]
-    sh("git stash", cwd=d)
+    sh("git apply -R patch.diff", cwd=d)
     try:
         rc_clean, out = sh(f"/venv/bin/python {d}/demo.py", cwd=d, env=env)
         report["demo_without_change_rc"] = rc_clean
         rc_t2, out = sh("/venv/bin/python -m pytest -q -p no:cacheprovider -x 2>&1 | tail -1", cwd=d, env=env)
         report["tests_without_change"] = "passed" if rc_t2 == 0 else "FAILED: " + out.strip()
     finally:
-        sh("git stash pop", cwd=d)
+        sh("git apply patch.diff", cwd=d)
     ok = (report["tests_with_change"] == "passed" and rc_demo != 0 and report["demo_without_change_rc"] == 0)
     report["confirmed"] = ok
     caught = {}
